@@ -3,6 +3,7 @@ import CLModel.Paths.ProjectFiles
 import CLModel.Paths.ProjectFilesM
 import CLModel.Paths.TomlConfig
 import CLModel.Paths.IniConfig
+import CLModel.Paths.TomlSession
 /-!
 Driver operations of C13.
 
@@ -458,8 +459,94 @@ def opIniRun (toks : List String) : String :=
           | .ok looks => "ok|" ++ ";".intercalate (items.map (showItemR root tt)) ++ "|" ++ ";".intercalate looks
   | _ => "bad-args"
 
+/-! ### parser sessions (Paths/TomlSession.lean): a recorded history of calls on ONE `TOMLParser` object and on the
+`ProjectConfig` graphs it returned
+
+`c13.session <cwd> TT <n> <test>* <root> WORLDS <m> (<n> (<path> <tv>)*)* UNIVS <m> (<n> <text>* <k>)* OPS <n> <op>*`
+* `<op>` = `PARSE <ignore 0|1> <env: - | n (<key> <value>)*> <world idx> <top path>`        `live.append(parser.parse(...))`
+         | `DEEP <i> <n> <locale>*`                                                         `live[i].set_locales(ls, deep=True)`
+         | `FILES <k> <i>* <locale|-> <mergebase|-> <universe idx>`                          `ProjectFiles(locale, [live[i]…], mergebase)`,
+           enumeration over the first `k` paths of the universe (the regular files) and `match` of every path of it
+* a world is the content of the configuration files WHEN the call was made (the harness rewrites files between calls)
+Result: the results of the calls, then `END`, then the `ProjectConfig` graphs the caller holds at the end, joined by ` ## `
+(formats of `c13.toml.parse` / `c13.toml.run`).
+
+`c13.ini.session <iniworld> <inipath> <l10nbase> <n> <iniworld>*` : ONE `EnumerateApp` built in the first world, `asConfig()`
+called once per following world; results in the format of `c13.ini.config`, joined by ` ## `. -/
+
+def sessOp (cwd : List Nat) (worlds : Array TC.World) (univs : Array (List Path × Nat)) : PM TS.Op := do
+  let t ← tok
+  if t == "PARSE" then do
+    let ig ← nat
+    let env ← optPairs
+    let wi ← nat
+    let top ← text
+    match worlds[wi]? with
+    | some w => pure (.parse { w := w, env := env, ignore := ig == 1, path := top })
+    | none => failure
+  else if t == "DEEP" then do
+    let i ← nat
+    let ls ← counted text
+    pure (.deep i ls)
+  else if t == "FILES" then do
+    let is ← counted nat
+    let loc ← optText
+    let mb ← optText
+    let ui ← nat
+    match univs[ui]? with
+    | some (u, k) => pure (.files is loc mb cwd { files := u.take k } u)
+    | none => failure
+  else failure
+
+def showListed (root : Path) (tt : List (List Nat)) : Except TC.EErr (List Item × List (Option Item)) → String
+  | .error (.parse i e) => s!"parse-{i}:" ++ showTCErr e
+  | .error (.files e) => showMErr e
+  | .ok (its, ls) =>
+    "ok|" ++ ";".intercalate (its.map (showItemR root tt)) ++ "|" ++
+      ";".intercalate (ls.map fun r => match r with | some i => showItemR root tt i | none => "None")
+
+def showOut (cwd root : Path) (tt : List (List Nat)) : TS.Out → String
+  | .parsed (.ok pc) => showPC cwd pc
+  | .parsed (.error e) => showTCErr e
+  | .mutated pc => showPC cwd pc
+  | .listed r => showListed root tt r
+  | .badIndex => "bad-index"
+
+def opSession (toks : List String) : String :=
+  let p : PM _ := do
+    let cwd ← text
+    expect "TT"; let tt ← counted text
+    let root ← text
+    expect "WORLDS"
+    let ws ← counted (do let fs ← counted (do let p ← text; let v ← tv; pure (p, v)); pure ({ files := fs, cwd := cwd } : TC.World))
+    expect "UNIVS"
+    let us ← counted (do let u ← counted text; let k ← nat; pure (u, k))
+    expect "OPS"
+    let ops ← counted (sessOp cwd ws.toArray us.toArray)
+    pure (cwd, tt, root, ops)
+  match p.run toks with
+  | some ((cwd, tt, root, ops), []) =>
+    let r := TS.run TS.State.init ops
+    " ## ".intercalate (r.2.map (showOut cwd root tt) ++ ["END"] ++ r.1.live.map (showPC cwd))
+  | _ => "bad-args"
+
+def showIniResult (w : TI.IniWorld) : Except TI.Err TI.Result → String
+  | .error e => showIniErr e
+  | .ok r => showPC w.cwd r.pc ++ " FP " ++ showOptText (r.filterFrom.map PF.dirname)
+
+def opIniSession (toks : List String) : String :=
+  match (do let a ← iniworld; let p ← text; let b ← text; let ws ← counted iniworld; pure (a, p, b, ws) : PM _).run toks with
+  | some (((fl, w), p, b, ws), []) =>
+    match TS.EApp.new w fl p b with
+    | .error e => showIniErr e
+    | .ok app =>
+      let worlds := ws.map (·.2)
+      " ## ".intercalate ((worlds.zip (app.session worlds)).map fun x => showIniResult x.1 x.2)
+  | _ => "bad-args"
+
 def ops : List (String × (List String → String)) :=
   [("pf.run", opRun), ("pf.env", opEnv), ("pfm.run", opRunM),
    ("c13.toml.parse", opTomlParse), ("c13.toml.same", opTomlSame), ("c13.toml.run", opTomlRun),
-   ("c13.ini.config", opIniConfig), ("c13.ini.run", opIniRun)]
+   ("c13.ini.config", opIniConfig), ("c13.ini.run", opIniRun),
+   ("c13.session", opSession), ("c13.ini.session", opIniSession)]
 end Ops.C13
